@@ -260,6 +260,16 @@ fn judge_relations(spec: &CmdSpec, cmd: &clap::Command, argv: &[Vec<u8>], h: &mu
                         h.bump("rel/missing-justified");
                     }
                 }
+                "DisplayHelpOnMissingArgumentOrSubcommand" => {
+                    // arg_required_else_help: justified exactly when nothing was supplied explicitly
+                    // (command line or environment) and no subcommand was given
+                    let nothing = r2::explicit_set(spec, &ob).is_empty() && !has_sub;
+                    if !(spec.has(Setting::ArgRequiredElseHelp) && nothing) {
+                        bad.push(("help-on-missing-arguments error although arguments were supplied".into(), format!("explicit {:?}; sub {}", r2::explicit_set(spec, &ob), has_sub)));
+                    } else {
+                        h.bump("rel/help-on-empty-justified");
+                    }
+                }
                 other => {
                     // nothing else can be wrong with these lines
                     if strict.is_empty() && !args_conflict_sub {
@@ -329,7 +339,7 @@ fn main() {
     par_blocks(blocks.len(), |bi, _| {
         let (cv, l) = &blocks[bi];
         let Ok(cmd) = build_valid(&cv.spec) else { return };
-        let alpha = if cv.name.starts_with("hyphen:") || cv.name.starts_with("negnum:") || cv.name.starts_with("posorder:") { conv::hyphen_alphabet() } else { conv::alphabet(&cv.spec) };
+        let alpha = if cv.name.contains(':') { conv::hyphen_alphabet() } else { conv::alphabet(&cv.spec) };
         let mut h = Hist::new();
         let mut argv: Vec<Vec<u8>> = vec![];
         let mut idx = 0u64;
